@@ -50,55 +50,56 @@ READER_COMPAT = {"INTEGER": {"varint"}, "BIGINT": {"varint"}, "REAL": {"float"},
 
 
 def sql_parts(prog, module, e, la, fn):
-    """Flatten an SQL expression into [('const', text) | ('slot', expr) | ('typeslot', expr)], following local names, helper
-    functions that build the text, and `sep.join(<list built by append> | <generator> | ['?'] * n)`."""
-    if isinstance(e, ast.Name) and e.id in la:
-        val = la[e.id]
-        if isinstance(val, ast.Call) and isinstance(val.func, ast.Attribute) and val.func.attr == "join" and val.args:
-            joined = val.args[0]
-            if isinstance(joined, ast.Name):
-                apps = [a.args[0] for a in calls_in(fn) if isinstance(a.func, ast.Attribute) and a.func.attr == "append" and norm(a.func.value) == joined.id and a.args]
-                out = []
-                for ap in apps:
-                    out += sql_parts(prog, module, ap, la, fn)
-                return out or [("slot", e)]
-            if isinstance(joined, (ast.GeneratorExp, ast.ListComp)):
-                return sql_parts(prog, module, joined.elt, la, fn)
-            if isinstance(joined, ast.BinOp) and isinstance(joined.op, ast.Mult) and isinstance(joined.left, ast.List) and all(
-                    isinstance(x, ast.Constant) and x.value == "?" for x in joined.left.elts):
-                return [("const", "?")]
-            return [("slot", e)]
-        if isinstance(val, ast.Call) and norm(val.func) == "FIELD_MAP.get" or (isinstance(val, ast.Subscript) and norm(val.value) == "FIELD_MAP"):
-            return [("typeslot", e)]
-        if isinstance(val, (ast.JoinedStr, ast.BinOp, ast.Constant)) or (isinstance(val, ast.Call) and isinstance(prog.resolve_expr(module, val.func), DefRef)):
-            return sql_parts(prog, module, val, la, fn)
-        return [("slot", e)]
-    if isinstance(e, ast.JoinedStr):
+    """Flatten an SQL expression into [('const', text) | ('slot', source text) | ('typeslot', source text)] using the symbolic text
+    structure (f-strings, str.format, concatenation, joins over comprehensions / appended lists, locals); helper functions of the
+    package that build the text are entered."""
+    from ..strsym import text_structure
+
+    def flat(parts, holder, hmod, depth=0):
         out = []
-        for v in e.values:
-            if isinstance(v, ast.Constant):
-                out.append(("const", str(v.value)))
-            else:
-                inner = v.value
-                if isinstance(inner, ast.Name) and inner.id in la:
-                    out += sql_parts(prog, module, inner, la, fn)
-                elif (isinstance(inner, ast.Call) and norm(inner.func) == "FIELD_MAP.get") or (isinstance(inner, ast.Subscript) and norm(inner.value) == "FIELD_MAP"):
-                    out.append(("typeslot", inner))
+        for p in parts:
+            if p[0] == "lit":
+                out.append(("const", p[1]))
+            elif p[0] == "repeat":
+                out += flat(p[3], holder, hmod, depth)
+            elif p[0] == "alt":
+                alts = [flat(a, holder, hmod, depth) for a in p[1]]
+                if alts and all(a == alts[0] for a in alts):
+                    out += alts[0]
                 else:
-                    out.append(("slot", inner))
+                    out.append(("slot", "alt(" + " | ".join("".join(t for _, t in a) for a in alts) + ")"))
+            else:
+                txt = p[1]
+                if txt.startswith("FIELD_MAP.get(") or txt.startswith("FIELD_MAP["):
+                    out.append(("typeslot", txt))
+                    continue
+                # `['?'] * n` joined: a run of placeholders
+                try:
+                    node = ast.parse(txt, mode="eval").body
+                except SyntaxError:
+                    node = None
+                if isinstance(node, ast.Call) and isinstance(node.func, ast.Attribute) and node.func.attr == "join" and node.args:
+                    j0 = node.args[0]
+                    if isinstance(j0, ast.BinOp) and isinstance(j0.op, ast.Mult) and isinstance(j0.left, ast.List) and all(isinstance(x, ast.Constant) and x.value == "?" for x in j0.left.elts):
+                        out.append(("const", "?"))
+                        continue
+                if isinstance(node, ast.Call) and depth < 3:
+                    r = prog.resolve_expr(hmod, node.func)
+                    if isinstance(r, DefRef) and isinstance(r.node, ast.FunctionDef):
+                        rets = [x for x in walk_no_nested(r.node) if isinstance(x, ast.Return) and x.value is not None]
+                        if len(rets) == 1:
+                            out += flat(text_structure(r.node, rets[0].value), r.node, r.node._module, depth + 1)
+                            continue
+                out.append(("slot", txt))
         return out
-    if isinstance(e, ast.Constant) and isinstance(e.value, str):
-        return [("const", e.value)]
-    if isinstance(e, ast.BinOp) and isinstance(e.op, ast.Add):
-        return sql_parts(prog, module, e.left, la, fn) + sql_parts(prog, module, e.right, la, fn)
-    if isinstance(e, ast.Call):
-        r = prog.resolve_expr(module, e.func)
-        if isinstance(r, DefRef) and isinstance(r.node, ast.FunctionDef):
-            rets = [x for x in walk_no_nested(r.node) if isinstance(x, ast.Return)]
-            la2 = {norm(st.targets[0]): st.value for st in walk_no_nested(r.node) if isinstance(st, ast.Assign) and isinstance(st.targets[0], ast.Name)}
-            if len(rets) == 1:
-                return sql_parts(prog, r.node._module, rets[0].value, la2, r.node)
-    return [("slot", e)]
+
+    merged = []
+    for k, t in flat(text_structure(fn, e), fn, module):
+        if merged and merged[-1][0] == "const" and k == "const":
+            merged[-1] = ("const", merged[-1][1] + t)
+        else:
+            merged.append((k, t))
+    return merged
 
 
 def run(ctx):
@@ -145,7 +146,7 @@ def run(ctx):
                     prev = parts[i - 1][1] if i > 0 and parts[i - 1][0] == "const" else ""
                     nxt = parts[i + 1][1] if i + 1 < len(parts) and parts[i + 1][0] == "const" else ""
                     quoted = prev.endswith('"') and nxt.startswith('"')
-                    vt = norm(v)
+                    vt = v if isinstance(v, str) else norm(v)
                     if quoted:
                         continue
                     bad.append(vt)
